@@ -103,12 +103,13 @@ CHECKS = {
              "the cross-kind numeric case 1 == True == 1.0 as exact fractions, keyEq_trans), c04_anon_vs_identified. ProvBundle.__eq__ exactly as "
              "coded (set(records) keeping the first representative, the length test, the greedy removal loop): c04_recordsEq_iff - for ALL record "
              "lists it answers True iff every record of each list has an equal record in the other (content equivalence up to order and "
-             "repetition); hence c04_recordsEq_refl / _symm / _trans and c04_recordsEq_of_same_members. The document comparison (bundle count, "
-             "bundle-wise equality) is transcribed in the model and compared with the implementation on every generated pair in both argument "
-             "orders; an independent content oracle decides the expected answer for 15 edit kinds, including in-place edits after a record has been hashed.",
+             "repetition); hence c04_recordsEq_refl / _symm / _trans and c04_recordsEq_of_same_members. ProvDocument.__eq__ (own records, bundle "
+             "count, bundle-wise equality by identifier): c04_docEq_symm and c04_docEq_trans, given that a document's bundle identifiers are "
+             "pairwise distinct by URI (pigeonhole over the two bundle tables). Every comparison is also run on the implementation for every "
+             "generated pair in both argument orders (after read-only accessors have been exercised on one side); an independent content oracle decides the expected answer for 15 edit kinds, including in-place edits after a record has been hashed.",
         note=A_COMMON + " Floats are assumed to carry the non-zero denominator float.as_integer_ratio() always gives (hypothesis RecOk). "
-             "The document level (ProvDocument.__eq__ over bundles) is covered by correspondence and oracle, not by a Lean theorem; "
-             "__hash__ consistency is checked by the oracle only.",
+             "Distinctness of bundle identifiers inside one document is a hypothesis of the document-level theorems (it is the key set of "
+             "a dict; C18 proves the corresponding coherence for records); __hash__ consistency is checked by the oracle only.",
         technique="Lean 4 proofs about the transcribed __eq__ (equivalence; greedy loop = content equality) + differential correspondence + content oracle",
         design="§4.C04"),
     "C07": dict(
@@ -145,13 +146,20 @@ CHECKS = {
         technique="Lean 4 list lemmas on the placement pass + op-sequence correspondence + independent unification spec",
         design="§4.C08"),
     "C09": dict(
-        text="Lean: a successful new_record appends exactly one record of the requested kind to its container (c09_newRecord_appends); "
-             "an add_record sequence (body of update, flattened, constructors, add_bundle of a document) leaves the target with its former "
-             "records followed by one new record per source record, same kinds, same order, other cells untouched "
-             "(c09_addRecords_conserves). Strict URI-level multiset conservation, refusals (duplicate / missing identifier / nested bundles) "
-             "and immutability of `other` are checked on the real code by a conservation oracle and by correspondence.",
-        note=A_COMMON + " URI-level equality of each re-created record is covered by correspondence + oracle, not yet by a Lean theorem.",
-        technique="Lean 4 induction over add_record sequences + op-sequence correspondence + multiset conservation oracle",
+        text="Lean: add_record, the operation underneath update / flattened / unified / the records= constructors / add_bundle of a document, "
+             "re-creates a record that is == to its source: c09_recreate_content and c09_recreate_eq - for EVERY record that construction can "
+             "have stored (pairs of the right class, single-valued PROV attributes, one entry per attribute URI), in EVERY target manager "
+             "satisfying the C03 invariant, whatever prefixes it has bound, add_attributes over the re-creation arguments never fails and the "
+             "result has the same kind and, attribute by attribute, the same values up to prefix (flatSetEq; kind-aware value equality). "
+             "Supporting: autoLiteral_fix (converting a stored value again is the identity up to prefixes), autoLiteral_stored, addOne_recreate, "
+             "loop_recreate, flat_insert. A successful new_record appends exactly one record of the requested kind to its container "
+             "(c09_newRecord_appends); an add_record sequence leaves the target with its former records followed by one new record per source "
+             "record, same kinds, same order, other cells untouched (c09_addRecords_conserves). Strict URI-level multiset conservation, refusals "
+             "(duplicate / missing identifier / nested bundles) and immutability of `other` are checked on the real code by a conservation "
+             "oracle and by correspondence.",
+        note=A_COMMON + " The composition of the record-level theorem with the heap plumbing of new_record (identifier resolution, element "
+             "identifier check, cell allocation) is by correspondence; c09_addRecords_conserves covers kinds, counts and frames.",
+        technique="Lean 4: content theorem for re-created records (all managers, all stored records) + induction over add_record sequences + correspondence + oracle",
         design="§4.C09"),
     "C12": dict(
         text="Lean heap model: allocation is fresh (allocCont_fresh, c12_alloc_fresh); a mutator (add_namespace, set_default_namespace, "
